@@ -55,6 +55,9 @@ def noises():
     m = rs.normal(size=(2, 2)) + 1j * rs.normal(size=(2, 2))
     out["eff_seeded"] = dict(eff_noise_opers=[m], eff_noise_rates=[0.6])
     out["eff_two"] = dict(eff_noise_opers=[u(0, 1), u(1, 0)], eff_noise_rates=[0.3, 1.1])
+    # a channel that is switched off (rate exactly 0) listed before / after an active one
+    out["eff_zero_first"] = dict(eff_noise_opers=[u(0, 0) - u(1, 1), u(1, 0)], eff_noise_rates=[0.0, 0.4])
+    out["eff_zero_last"] = dict(eff_noise_opers=[u(1, 0), u(0, 0) - u(1, 1)], eff_noise_rates=[0.4, 0.0])
     return out
 
 
@@ -69,8 +72,8 @@ DRIVES = {
 
 def _alph(tier):
     if tier == "quick":
-        return dict(shape=["one", "pair"], drive=["const", "phase", "phasejump"], dt=[10], tol=[1e-10], init=[None, "mixed"])
-    return dict(shape=["one", "pair", "bent3"], drive=list(DRIVES), dt=[10, 3], tol=[1e-10, 1e-6], init=[None, "product", "mixed"])
+        return dict(shape=["one", "pair"], drive=["const", "phase", "phasejump"], dt=[10], tol=[1e-10], init=[None, "mixed", "mixed_offtrace"])
+    return dict(shape=["one", "pair", "bent3"], drive=list(DRIVES), dt=[10, 3], tol=[1e-10, 1e-6], init=[None, "product", "mixed", "mixed_offtrace", "mixed_x2"])
 
 
 def bounds(tier, seed):
@@ -123,8 +126,10 @@ def run_case(case):
 
     kw = {}
     if case["init"]:
-        rho0 = _rho0(n, case["init"], case["seed"])
-        kw["initial_state"] = sv.DensityMatrix(torch.tensor(rho0, dtype=torch.complex128), gpu=False)
+        rho0 = _rho0(n, case["init"].split("_")[0], case["seed"])
+        # the run is defined on the normalised state: a trace slightly (single-precision storage) or grossly off must not matter
+        factor = {"mixed_offtrace": 1 + 4e-6, "mixed_x2": 2.0}.get(case["init"], 1.0)
+        kw["initial_state"] = sv.DensityMatrix(torch.tensor(rho0 * factor, dtype=torch.complex128), gpu=False)
     try:
         config = sv.SVConfig(dt=case["dt"], krylov_tolerance=case["tol"], observables=obs, log_level=logging.CRITICAL, gpu=False, noise_model=nm, **kw)
         with contextlib.redirect_stdout(io.StringIO()):
